@@ -229,6 +229,9 @@ def reply_capacity(ctx, prog):
             sl = rv.fields[0]
             tx = field(prog, sl, 'ChannelSlot', 'tx')
             caps.add(tx.chan.cap)
+            names_ = prog.types.fields('ChannelSlot')
+            known = ('rx', 'tx', 'collector', 'consumers', 'return_handler', 'pub_confirm_handler')
+            _w.SLOT_EXTRA[id(prog)] = {n_: sl.fields[i_] for i_, n_ in enumerate(names_) if n_ not in known and i_ in sl.fields}
         if len(caps) != 1:
             raise Unsupported(f"ChannelSlot::new: reply queue capacity not unique ({caps})")
         _REPLY_CAP_OF[id(prog)] = caps.pop()
